@@ -157,7 +157,10 @@ async fn handle_http_proxy_connection(
             .await;
     });
 
+    let session_for_release = Arc::clone(&session);
     let _ = tokio::join!(to_client, to_proxy);
+    // Both directions have ended: the session can serve the next request
+    client.release_session(session_for_release).await;
 
     tracing::debug!(
         "[HTTP] Connection to {}:{} closed (stream {})",
